@@ -308,9 +308,10 @@ class AbortTracer(object):
     """Raise SimAbort at the k-th line event executed inside labella code
     (optionally only counting lines of one file, or of lambdas)."""
 
-    def __init__(self, k, scope="any"):
+    def __init__(self, k, scope="any", exc=None):
         self.k = k
         self.scope = scope
+        self.exc = exc or SimAbort
         self.n = 0
         self.fired = False
         self.where = None
@@ -336,7 +337,7 @@ class AbortTracer(object):
                     os.path.basename(frame.f_code.co_filename),
                     frame.f_code.co_name,
                 ]
-                raise SimAbort()
+                raise self.exc()
         return self._local
 
     def __enter__(self):
